@@ -200,7 +200,7 @@ func (g *mdGraph) text(rng *rand.Rand) string {
 func genC17(ctx *fw.Ctx) []fw.Case {
 	var cases []fw.Case
 	rng := ctx.Rand("c17")
-	n := ctx.Pick(300, 8000)
+	n := ctx.Pick(1500, 30000)
 	for i := 0; i < n; i++ {
 		seed := rng.Int63()
 		cases = append(cases, fw.Case{ID: fmt.Sprintf("graph/%d", seed), Run: func(r *fw.Rec) { c17Graph(r, seed) }})
